@@ -17,7 +17,7 @@ literally (`str.split(" OS=")`, `in`, `[1]`, `" ".join`); the driver op "header"
   parse_organism            rest of the first OS= word and the words after it, up to the next
                             OS= word and cut at the first GN= word; None without an OS= word
   parse_gene_name_func      rest of the first GN= word; None without one
-  parse_protein_existence   int(rest of the first PE= word); None without one
+  parse_protein_existence   int(rest of the first PE= word) — Python's int() of a str: `parseInt`; None without one
 
 Executable, Mathlib-free.  Strings are `List Char` inside the model.
 -/
@@ -47,9 +47,17 @@ def joinOn (c : Char) : List (List Char) → List Char
 def words (s : List Char) : List Tok := splitOn ' ' s
 def unwords (ts : List Tok) : List Char := joinOn ' ' ts
 
-/-- ASCII white space stripped by `line.rstrip()` -/
-def isSpace (c : Char) : Bool := c = ' ' || c = '\t' || c = '\n' || c = '\r' || c = '\x0b' || c = '\x0c'
+/-- Python `str.isspace()` of one character — the white space `str.rstrip()` / `str.strip()` without argument
+    remove (CPython 3.12, Unicode 15.0: bidirectional class WS, B or S, or category Zs).  Exactly 29 code points:
+    U+0009–U+000D (TAB, LF, VT, FF, CR), U+001C–U+001F (FS, GS, RS, US), U+0020, U+0085 (NEL), U+00A0 (NBSP),
+    U+1680, U+2000–U+200A, U+2028, U+2029, U+202F, U+205F, U+3000.  Compared with the running interpreter over
+    every code point by the correspondence (case kind `charclass`). -/
+def isSpace (c : Char) : Bool :=
+  let n := c.toNat
+  (0x09 ≤ n && n ≤ 0x0D) || (0x1C ≤ n && n ≤ 0x20) || n == 0x85 || n == 0xA0 || n == 0x1680 ||
+    (0x2000 ≤ n && n ≤ 0x200A) || n == 0x2028 || n == 0x2029 || n == 0x202F || n == 0x205F || n == 0x3000
 
+/-- `line.rstrip()` (the only strip the FASTA reader and the header parsers perform) -/
 def rstrip (s : List Char) : List Char := (s.reverse.dropWhile isSpace).reverse
 
 /-! ### keys -/
@@ -100,14 +108,74 @@ def parseOrganism (ts : List Tok) : Option (List Tok) :=
 def parseGene (ts : List Tok) : Option Tok :=
   (fromFirst (startsWith GN) ts.tail).map (fun x => x.1.drop GN.length)
 
-/-- decimal value of a non-empty string of ASCII digits -/
-def parseNat (s : List Char) : Option Nat :=
-  if s.isEmpty then none
-  else s.foldl (fun acc c => acc.bind (fun n => if c.isDigit then some (n * 10 + (c.toNat - '0'.toNat)) else none)) (some 0)
+/-! ### Python `int(s)` of a `str` (base 10)
+
+CPython (`PyLong_FromUnicodeObject`) first folds the string to ASCII — a character below U+007F stays, a non-ASCII
+`str.isspace` character becomes a blank, a non-ASCII decimal digit (category Nd) becomes its ASCII digit, anything
+else ends the literal with `?` — and then reads `white* [+-]? digit (_? digit)* white*` with C's `isspace`
+(TAB, LF, VT, FF, CR, blank).  Hence the strings `int()` accepts are exactly:
+
+  * optional white space from `isIntSpace` = `str.isspace` WITHOUT U+001C–U+001F (they are below U+007F, so they are
+    not folded, and C's `isspace` does not know them) at both ends,
+  * an optional sign `+` or `-` (ASCII only; directly before the first digit),
+  * one or more decimal digits of ANY script (`digitValue`: the 680 characters of category Nd in Unicode 15.0, 68
+    runs of ten, value = offset in the run; scripts may be mixed), with at most one underscore between two digits
+    (none leading, trailing or doubled).
+
+Everything else is `ValueError: invalid literal for int()` → `none`.  Leading zeros are allowed (`07` is 7); `-0` is 0;
+the value may be negative.  (CPython also refuses literals of more than 4300 digits, with another message; no such
+header is modelled or generated.) -/
+
+/-- the white space `int()` skips around the literal -/
+def isIntSpace (c : Char) : Bool := isSpace c && !(0x1C ≤ c.toNat && c.toNat ≤ 0x1F)
+
+/-- code points of the digit ZERO of every decimal digit run (category Nd, Unicode 15.0): each is followed by its
+    digits ONE … NINE.  Compared with `int(chr(cp))` of the running interpreter over every code point. -/
+def digitZeros : List Nat :=
+  [
+   0x30, 0x660, 0x6F0, 0x7C0, 0x966, 0x9E6, 0xA66, 0xAE6, 0xB66, 0xBE6,
+   0xC66, 0xCE6, 0xD66, 0xDE6, 0xE50, 0xED0, 0xF20, 0x1040, 0x1090, 0x17E0,
+   0x1810, 0x1946, 0x19D0, 0x1A80, 0x1A90, 0x1B50, 0x1BB0, 0x1C40, 0x1C50, 0xA620,
+   0xA8D0, 0xA900, 0xA9D0, 0xA9F0, 0xAA50, 0xABF0, 0xFF10, 0x104A0, 0x10D30, 0x11066,
+   0x110F0, 0x11136, 0x111D0, 0x112F0, 0x11450, 0x114D0, 0x11650, 0x116C0, 0x11730, 0x118E0,
+   0x11950, 0x11C50, 0x11D50, 0x11DA0, 0x11F50, 0x16A60, 0x16AC0, 0x16B50, 0x1D7CE, 0x1D7D8,
+   0x1D7E2, 0x1D7EC, 0x1D7F6, 0x1E140, 0x1E2F0, 0x1E4F0, 0x1E950, 0x1FBF0
+  ]
+
+/-- `Py_UNICODE_TODECIMAL` -/
+def digitValue (c : Char) : Option Nat :=
+  (digitZeros.find? (fun z => z ≤ c.toNat && c.toNat < z + 10)).map (c.toNat - ·)
+
+/-- the digits after the first one: `acc` = value so far, `pu` = the previous character was an underscore -/
+def parseDigits : Nat → Bool → List Char → Option Nat
+  | acc, pu, [] => if pu then none else some acc
+  | acc, pu, c :: r =>
+    if c = '_' then (if pu then none else parseDigits acc true r)
+    else match digitValue c with
+      | some d => parseDigits (acc * 10 + d) false r
+      | none => none
+
+/-- `digit (_? digit)*` -/
+def parseNatLit : List Char → Option Nat
+  | [] => none
+  | c :: r =>
+    match digitValue c with
+    | some d => parseDigits d false r
+    | none => none
+
+/-- remove the characters satisfying `p` at both ends -/
+def stripBoth (p : Char → Bool) (s : List Char) : List Char := ((s.dropWhile p).reverse.dropWhile p).reverse
+
+/-- Python `int(s)` for a `str`; `none` = `ValueError` -/
+def parseInt (s : List Char) : Option Int :=
+  match stripBoth isIntSpace s with
+  | '+' :: r => (parseNatLit r).map Int.ofNat
+  | '-' :: r => (parseNatLit r).map (fun n => -(Int.ofNat n))
+  | r => (parseNatLit r).map Int.ofNat
 
 /-- `parse_protein_existence_level`: `none` = no `PE=` word; `some none` = `int()` fails -/
-def parseExistence (ts : List Tok) : Option (Option Nat) :=
-  (fromFirst (startsWith PE) ts.tail).map (fun x => parseNat (x.1.drop PE.length))
+def parseExistence (ts : List Tok) : Option (Option Int) :=
+  (fromFirst (startsWith PE) ts.tail).map (fun x => parseInt (x.1.drop PE.length))
 
 /-! ### composing a UniProt-style header -/
 
@@ -149,7 +217,8 @@ structure Annotation where
   length : Nat
   organism : Option (List Char)
   description : List Char
-  existence : Option Nat
+  /-- a Python `int`: `int()` of the `PE=` field (negative for a field such as `-1`) -/
+  existence : Option Int
 deriving Repr, DecidableEq
 
 /-- the identifier rules of `get_protein_annotations` -/
@@ -406,8 +475,8 @@ def parseOrganismChar (h : List Char) : Option (List Char) :=
 
 /-- `parse_protein_existence_level`: `int(fasta_header.split(" PE=")[1].split(" ")[0]) if " PE=" in
     fasta_header else None` (`some none` = `int()` raises) -/
-def parseExistenceChar (h : List Char) : Option (Option Nat) :=
-  if pyIn " PE=" h then some (parseNat (idx (splitStr " " (idx (splitStr " PE=" h) 1)) 0)) else none
+def parseExistenceChar (h : List Char) : Option (Option Int) :=
+  if pyIn " PE=" h then some (parseInt (idx (splitStr " " (idx (splitStr " PE=" h) 1)) 0)) else none
 
 /-- `parse_gene_name_func`: `fasta_header.split(" GN=")[1].split(" ")[0] if " GN=" in fasta_header else None` -/
 def parseGeneChar (h : List Char) : Option (List Char) :=
